@@ -340,6 +340,14 @@ pub fn parse_partial<F: LemireFloat, const FORMAT: u128>(
         parse_partial_number,
         parse_partial_special
     );
+    // Nothing after the sign belongs to a number (only possible if no digits
+    // are required): it may be a special value, as for the complete parser.
+    if count == byte.cursor() {
+        if let Some(value) = parse_partial_special::<_, FORMAT>(byte.clone(), is_negative, options)
+        {
+            return Ok(value);
+        }
+    }
     // Try the fast-path algorithm.
     if let Some(value) = num.try_fast_path::<_, FORMAT>() {
         return Ok((value, count));
